@@ -25,6 +25,13 @@ type FakeNC struct {
 	Running   []string // edit-configs applied directly to running
 	Log       []string // calls (while armed or not), e.g. "EditConfig(candidate)"
 	ArmedLog  []string
+	lastMode  string // behaviour of the last EditConfig (for the NETCONF server in front of the model)
+}
+
+func (f *FakeNC) lastEditMode() string {
+	f.mu.Lock()
+	defer f.mu.Unlock()
+	return f.lastMode
 }
 
 // NCPlan says how each call behaves while the driver is armed.
@@ -33,9 +40,13 @@ type NCPlan struct {
 	Edit    string // "ok" | "warn" | "err" | "eof" | "rpcerr"
 	Commit  string // "ok" | "err" | "eof"
 	Discard string // "ok" | "err"
+	Shape   string // scrapligo layer only: how <rpc-error> replies are written: "" plain, "prefixed" (nc:rpc-error, RFC compliant namespace prefix)
 }
 
 func (p NCPlan) String() string {
+	if p.Shape != "" {
+		return fmt.Sprintf("alive=%s,edit=%s,commit=%s,discard=%s,rpc-error=%s", p.IsAlive, p.Edit, p.Commit, p.Discard, p.Shape)
+	}
 	return fmt.Sprintf("alive=%s,edit=%s,commit=%s,discard=%s", p.IsAlive, p.Edit, p.Commit, p.Discard)
 }
 
@@ -86,6 +97,7 @@ func (f *FakeNC) EditConfig(tgt string, config string) (*nctypes.NetconfResponse
 	if f.Armed {
 		mode = f.Plan.Edit
 	}
+	f.lastMode = mode
 	if mode == "eof" {
 		f.Alive = false
 		return nil, errors.New("read error: EOF")
@@ -176,10 +188,11 @@ func runC18() int {
 		"after an EOF / dead connection nothing can be demanded of the candidate (no call is possible); those runs only check that nothing is committed and no panic occurs",
 	}
 	type job struct {
-		sc   c18Scenario
-		ds   string
-		opt  XMLOpt
-		plan NCPlan
+		sc    c18Scenario
+		ds    string
+		opt   XMLOpt
+		plan  NCPlan
+		layer string // "driver": the model is the netconf.Driver; "scrapligo": real scrapligo driver + production adapter over an in-memory NETCONF server in front of the model
 	}
 	var jobs []job
 	for _, sc := range c18Scenarios() {
@@ -192,7 +205,13 @@ func runC18() int {
 								if ds == "running" && (co != "ok" || di != "ok") {
 									continue // commit/discard are never reached for direct-to-running targets
 								}
-								jobs = append(jobs, job{sc, ds, opt, NCPlan{al, ed, co, di}})
+								jobs = append(jobs, job{sc, ds, opt, NCPlan{IsAlive: al, Edit: ed, Commit: co, Discard: di}, "driver"})
+								if (opt == XMLOpt{} || opt == XMLOpt{true, true, true}) {
+									jobs = append(jobs, job{sc, ds, opt, NCPlan{IsAlive: al, Edit: ed, Commit: co, Discard: di}, "scrapligo"})
+									if ed == "rpcerr" || co == "err" || di == "err" {
+										jobs = append(jobs, job{sc, ds, opt, NCPlan{IsAlive: al, Edit: ed, Commit: co, Discard: di, Shape: "prefixed"}, "scrapligo"})
+									}
+								}
 							}
 						}
 					}
@@ -222,8 +241,18 @@ func runC18() int {
 				fake := &FakeNC{Alive: true, Plan: j.plan}
 				sbi := &dconfig.SBI{Type: "netconf", Address: "127.0.0.1", Port: 1, ConnectRetry: 3600e9,
 					NetconfOptions: &dconfig.SBINetconfOptions{IncludeNS: j.opt.HonorNS, OperationWithNamespace: j.opt.OpWithNS, UseOperationRemove: j.opt.UseRemove, CommitDatastore: j.ds}}
+				var drv netconf.Driver = fake
+				if j.layer == "scrapligo" {
+					d, sd, err := newScrapligoDriver(fake)
+					if err != nil {
+						rep.Add(&Violation{Clause: "harness", Sig: "scrapligo-open-failed", Detail: err.Error(), Engine: "E2-faults"})
+						continue
+					}
+					drv = d
+					defer func() { go sd.Close() }() // Close may wait for a reader that is already gone
+				}
 				w, err := NewWorld(u, cc, nil, WorldOpts{Fragments: frags, MakeTarget: func(w *World) target.Target {
-					return target.NewNCTargetForVerif(w.Name, sbi, w.DS.VerifSchemaClient(), fake)
+					return target.NewNCTargetForVerif(w.Name, sbi, w.DS.VerifSchemaClient(), drv)
 				}})
 				if err != nil {
 					fmt.Fprintln(os.Stderr, err)
@@ -260,15 +289,27 @@ func runC18() int {
 				alive := fake.Alive
 				fake.mu.Unlock()
 				callStr := strings.Join(calls, ",")
-				cas := map[string]any{"scenario": j.sc.Name, "commit_datastore": j.ds, "xml_options": fmt.Sprintf("%+v", j.opt), "plan": j.plan.String(), "calls": calls, "set_error": fmt.Sprint(out.Err)}
+				cas := map[string]any{"scenario": j.sc.Name, "layer": j.layer, "commit_datastore": j.ds, "xml_options": fmt.Sprintf("%+v", j.opt), "plan": j.plan.String(), "calls": calls, "set_error": fmt.Sprint(out.Err)}
 				add := func(clause, detail string) {
-					rep.Add(&Violation{Clause: clause, Sig: fmt.Sprintf("%s:%s:%s:%s", clause, j.sc.Name, j.ds, j.plan), Detail: detail + fmt.Sprintf(" (calls=%v, err=%v)", calls, out.Err), Case: cas, Engine: "E2-faults"})
+					lt := ""
+					if j.layer != "driver" {
+						lt = ":" + j.layer
+					}
+					rep.Add(&Violation{Clause: clause, Sig: fmt.Sprintf("%s:%s:%s:%s%s", clause, j.sc.Name, j.ds, j.plan, lt), Detail: detail + fmt.Sprintf(" (calls=%v, err=%v)", calls, out.Err), Case: cas, Engine: "E2-faults"})
 				}
 				if out.Panic != "" {
 					add("panic", "Set panicked: "+out.Panic)
 				}
 				success := out.Err == nil && out.ConvErr == nil && !out.HasIntentErrors && out.Panic == ""
 				dead := !alive || j.plan.IsAlive == "false"
+				// a failing edit-config or commit must surface as an error of the Set
+				if success && !j.sc.Empty && !dead {
+					editFailed := strings.Contains(callStr, "EditConfig") && (j.plan.Edit == "err" || j.plan.Edit == "rpcerr")
+					commitFailed := strings.Contains(callStr, "Commit") && j.plan.Commit == "err"
+					if editFailed || commitFailed {
+						add("failure-reported-as-success", fmt.Sprintf("the device answered edit-config/commit with a failure (edit=%s commit=%s) but the Set returned success", j.plan.Edit, j.plan.Commit))
+					}
+				}
 				switch {
 				case j.sc.Empty:
 					if len(calls) > 0 {
@@ -327,7 +368,7 @@ func runC18() int {
 				w.Close()
 				mu.Lock()
 				evals++
-				distinct[fmt.Sprintf("%s|%s|%s|%s|ok=%v", j.sc.Name, j.ds, j.plan, callStr, success)] = true
+				distinct[fmt.Sprintf("%s|%s|%s|%s|%s|ok=%v", j.layer, j.sc.Name, j.ds, j.plan, callStr, success)] = true
 				if len(samples) < 8 && j.plan.Edit != "ok" {
 					samples = append(samples, cas)
 				}
